@@ -276,10 +276,11 @@ def selftest_ld(ldi):
     on the constructed exact-fill pictures by C14.Smallest; a field one bit narrower by C14.Fits."""
     from vc2_conformance.encoder import pictures as encp
 
-    pick = [x for x in ldi if x["inst"]["fill"] == "exact" and x["inst"]["b"] >= 2][:: max(1, len(ldi) // 120)][:40]
     orig = encp.intlog2
     out = {}
-    for name, delta, clause in (("wider", 1, "C14.Smallest"), ("narrower", -1, "C14.Fits")):
+    for name, delta, clause, fill in (("wider", 1, "C14.Smallest", "exact"), ("narrower", -1, "C14.Fits", "over")):
+        pick = [x for x in ldi if x["inst"]["fill"] == fill and x["inst"]["b"] >= 2]
+        pick = pick[:: max(1, len(pick) // 40)][:40]
         encp.intlog2 = lambda n, d=delta: max(0, orig(n) + d)
         try:
             recs = [ld_event((i + 1, x)) for i, x in enumerate(pick)]
